@@ -7,7 +7,7 @@ coq/theories/Sched.v (`allowed`), on the same scheduler contexts.  Shared by C02
 context = dict(tick, defs=[(id, app, [members])],
                view=[dict(id, cci, reps=[(rid, addr, tick, first)])],
                hosts=[dict(addr, region, tick, plog=[(s, r)], shards=[s])],
-               kill=[(s, r, addr)], ints=[..], u64s=[..], json=0|1, tag=str[, chain=1][, canon=1])
+               kill=[(s, r, addr)], ints=[..], u64s=[..], json=0|1, tag=str[, chain=1][, canon=1][, leaders=[(s, rid)]])
 chain=1: the round runs on the SAME Drummer/scheduler object as the previous context of the list (the real Drummer keeps one
 scheduler for its lifetime and calls updateSchedulerContext every round); the model judges every round by its own context only.
 Map keys always equal the id stored in the value (DB invariant, Sched.ctx_wf).
@@ -45,6 +45,10 @@ def ctx_line(c):
     for (s, r, a) in c["kill"]:
         t += [s, r, a]
     t += [len(c["ints"])] + list(c["ints"]) + [len(c["u64s"])] + list(c["u64s"])
+    if c.get("leaders"):          # replicas flagged IsLeader in the view (the model ignores the flag: so must the scheduler's decisions)
+        t.append(len(c["leaders"]))
+        for (s, r) in c["leaders"]:
+            t += [s, r]
     return " ".join(str(x) for x in t)
 
 
@@ -532,6 +536,50 @@ def gen_sequence(rng, ttl, step, length=None, stride=0):
             next_addr += 1
         rng.shuffle(members)
         cci += rng.randint(1, 3)
+    return out
+
+
+def gen_prefix_ctxs(rng, ttl, step):
+    """Address / id alphabets whose DECIMAL RENDERINGS are ambiguous when concatenated: addresses where one is the other plus
+    trailing digits (a1, a11, a115) and shard ids such that address+shard read the same ("a1"+"15" = "a11"+"5"), and (shard, replica)
+    pairs with the same concatenation ((15,1) / (1,51)).  A failed member lives on NodeHost X (live, no log for it); the record
+    that reads the same belongs to ANOTHER NodeHost / shard / replica: no restore - "a persisted log for exactly that replica"."""
+    T = 1000
+    out = []
+    for base in (1, 2, 26, 11, 7):
+        for big in (15, 151, 25, 1005, 31):
+            ds = str(big)
+            for k in range(1, len(ds)):
+                if ds[k] == "0":
+                    continue
+                a2, s2 = int(str(base) + ds[:k]), int(ds[k:])
+                for variant in range(4):
+                    rid = rng.choice([1, 3, 12])
+                    # (address, shard) of the failed member; (address, shard, replica) of the look-alike record
+                    if variant in (0, 2):
+                        fa, fs, la, ls, lr = base, big, a2, s2, rid
+                    elif variant == 1:
+                        fa, fs, la, ls, lr = a2, s2, base, big, rid
+                    else:
+                        fa, fs, la = base, big, base
+                        cat = str(big) + str(rid)
+                        j = rng.randint(1, len(cat) - 1)
+                        if cat[j] == "0" or (int(cat[:j]), int(cat[j:])) == (big, rid):
+                            continue
+                        ls, lr = int(cat[:j]), int(cat[j:])
+                    other = a2 if fa == base else base
+                    reps = [(rid, fa, T - ttl - step, 10), (rid + 50, 91, T, 10), (rid + 51, 92, T if variant != 2 else T - 3 * ttl, 10)]
+                    hosts = [dict(addr=91, region=1, tick=T, plog=[(fs, rid + 50)], shards=[fs]), dict(addr=92, region=1, tick=T, plog=[], shards=[fs]),
+                             dict(addr=95, region=1, tick=T, plog=[], shards=[])]
+                    hosts.append(dict(addr=fa, region=1, tick=T, plog=[(ls, lr)] if la == fa else [], shards=[fs]))
+                    if la != fa:
+                        hosts.append(dict(addr=la, region=1, tick=T, plog=[(ls, lr)], shards=[]))
+                    elif other not in (91, 92, 95):
+                        hosts.append(dict(addr=other, region=1, tick=T, plog=[(fs, rid)], shards=[]))     # the exact record, on the look-alike ADDRESS
+                    rng.shuffle(hosts)
+                    out.append(dict(tick=T, defs=[(fs, 7, [1, 2, 3])], view=[dict(id=fs, cci=rng.choice([1, 5]), reps=reps)], hosts=hosts, kill=[],
+                                    ints=[rng.randrange(0, 1 << 30) for _ in range(3)], u64s=[800000 + rng.randrange(1000)], json=rng.choice([0, 1]),
+                                    tag="prefix:a%d/s%d~a%d/s%d/v%d" % (fa, fs, la, ls, variant)))
     return out
 
 
